@@ -77,17 +77,63 @@ def check_C09(tier, seed, res, replay=None):
     res.count_cases(cases, nt_pair)
     res.add_samples([c for c in cases if nt_pair(c)][:3])
     run_events(res, rd, "c09", cases, "TraceFA.tla", timeout_ms=2000)
+    # agreement arm: many more random pairs generated in the driver; disagreements between the 3 selections judged by TLC
+    nb, per = (800, 20000) if tier == "thorough" else (64, 10000)
+    batches = [{"id": ["faagree", i], "op": "faagree", "seed": seed * 6151 + i, "count": per, "tmo": 240000} for i in range(nb)]
+    cf = os.path.join(rd, "agree.cases.ndjson")
+    vlib.write_ndjson(cf, batches)
+    events, pairs, noninc = [], 0, 0
+    for sh in vlib.drive(cf, os.path.join(rd, "agree.ev"), timeout_ms=240000):
+        for ev in vlib.read_ndjson(sh):
+            if ev.get("outcome") != "ok":
+                # hang / crash inside a batch: reported with the batch as (deterministic) replay
+                events.append(dict(ev, op="faincl", sel="batch", A={"start": [], "fin": [], "delta": []}, B={"start": [], "fin": [], "delta": []}))
+                continue
+            pairs += ev["res"]["count"]
+            noninc += ev["res"]["nonincluded"]
+            events += ev["res"]["disagree"]
+    res.extra["agreement_arm_pairs"] = pairs
+    res.extra["agreement_arm_nonincluded_pairs"] = noninc
+    res.extra["agreement_arm_disagreement_events"] = len(events)
+    if events:
+        ef = os.path.join(rd, "agree.disagree.0.ndjson")
+        vlib.write_ndjson(ef, events)
+        v = vlib.tlc_validate("TraceFA.tla", [ef])
+        res.add_validation(v)
+        res.report_fails(v["fails"], os.path.join(vlib.OUT, "viol"))
+    # Layer 0 self-check and Layer 2 model (safety + liveness over every pick order)
+    shards = list(range(64)) if tier == "thorough" else [(seed * 5 + i * 4) % 64 for i in range(16)]
+    m = vlib.tlc_sharded_check("FAcheck.tla", "FAcheck.cfg", 64, sorted(set(shards)))
+    res.add_model(m)
+    if not m["ok"]:
+        raise vlib.Broken("the Layer-0 oracle FA.tla fails its self-check (%s)" % m["log"])
+    from p_ta import model_with_mutants
+    model_with_mutants(res, "FAAntichain.tla", "FAAntichain4.cfg" if tier == "thorough" else "FAAntichain.cfg",
+                       ["MemoConverse", "MemoConverseLive"] if tier == "thorough" else [], "FAAntichain", timeout=3000)
 
 
 # ---------------------------------------------------------------------------------------- C10
+PRE = ["none", "none", "reverse", "unreach", "useless", "witness", "copy"]
+
+
+def with_pre(d, rng):
+    """results of operations are operands too: put one or both operands through another operation first"""
+    if rng.random() < 0.5:
+        d["preA"] = rng.choice(PRE)
+        d["preB"] = rng.choice(PRE)
+    return d
+
+
 def c10_variants(c, rng):
     out = []
     for kind in ("union", "isect"):
-        out.append(dict(present_nfa_pair(c, rng), op="faop", kind=kind))
-    out.append(dict(present_nfa_pair(c, rng, disjoint=True), op="faop", kind="uniondisj"))
+        out.append(with_pre(dict(present_nfa_pair(c, rng), op="faop", kind=kind), rng))
+    out.append(with_pre(dict(present_nfa_pair(c, rng, disjoint=True), op="faop", kind="uniondisj"), rng))
     for kind, src in (("reverse", "A"), ("unreach", "B"), ("useless", "A"), ("witness", "B")):
         d = {"id": c["id"], "src": c.get("src"), "op": "faop", "kind": kind,
              "A": gen.nfa_present(c[src], rng, rng.choice(["id", "rev", "sparse"]))}
+        if rng.random() < 0.4:
+            d["preA"] = rng.choice(PRE)
         out.append(d)
     return out
 
